@@ -744,7 +744,9 @@ class KlongInterpreter():
         if cached is None:
             i, prog = self.prog(x)
             cached = prog[0] if len(prog) == 1 else prog
-            self._parse_cache[cache_key] = cached
+            # parsing .module(x) switches the parser's module: such a text has to be parsed every time
+            if self._module == cache_key[1]:
+                self._parse_cache[cache_key] = cached
 
         # Try compiled path (single expressions only)
         if type(cached) is not list:
